@@ -721,10 +721,12 @@ def run(ck):
                       "subnormals), each with 3 directed or random mutations (comment, trailing/extra comma, ill-formed "
                       "UTF-8, bad escape, lone surrogate, trailing garbage, raw control byte, number outside the grammar, "
                       "duplicate name, token delete/duplicate/swap, truncate, byte flip, byte insert), raw random bytes, all "
-                      "truncations of some documents; every document x 4 option sets x 4 pool sizes; sequences of 2..4 "
+                      "truncations of some documents; every document x (4 option sets via json_set_options + a context "
+                      "on which json_set_options is never called = documented default) x 4 pool sizes; sequences of 2..4 "
                       "documents on ONE context (every directed failure that leaves containers open / a key pending / a "
                       "half-read token x every follow-up document; random histories of mutants, truncations and valid "
-                      "documents), each parse judged on its own; distinct = distinct byte string / sequence")
+                      "documents; plus per sequence: default context -> parse -> json_set_options(i % 4) -> parse ...), "
+                      "each parse judged on its own; distinct = distinct byte string / sequence")
     rng = vf.SplitMix(ck.seed)
     intensify = not ck.proof_ok
     with ProcessPoolExecutor(NPROC) as pool:
